@@ -181,6 +181,7 @@ CHECKS = {
             dict(name="modify", test="TestC03Modify", checks=(40000, 9000000), shards=(4, 14), timeout=(240, 3000)),
             dict(name="boundaries", test="TestC03Boundaries", kind="enum", shards=(4, 14), timeout=(240, 1200)),
             dict(name="counter", test="TestC03Counter", kind="enum", shards=(2, 14)),
+            dict(name="counter-concurrent", test="TestC03CounterConcurrent", kind="enum", shards=(2, 8), timeout=(240, 3000)),
             dict(name="native-fuzz", test="FuzzRoundTrip", kind="fuzz", fuzztime=(10, 120), shards=(1, 1), tiers=["thorough"], timeout=(120, 600), workers=14),
         ]),
     "C04": dict(
